@@ -205,6 +205,7 @@ func (m *Machine) nondet(nameV value, s Sort, kind string) *Term {
 	if kind == "rune" && !t.Valid {
 		t.Valid = true
 		c := m.ctx
+		m.bounds[t] = [2]int64{0, 0x10FFFF}
 		m.addPC(c.Or(c.Ult(t, mkBV(32, 0xD800)),
 			c.And(c.Ult(mkBV(32, 0xDFFF), t), c.Ule(t, mkBV(32, 0x10FFFF)))))
 	}
